@@ -1,10 +1,124 @@
 import VOPyVerif.Drv.Proto
-/-! Driver front end for property C18 (line protocol → executable model). -/
+import VOPyVerif.Model.Adaptive
+/-! Driver front end for property C18 (adaptive discretisation / VOGP_AD set surgery).
+
+Requests (arguments separated by single spaces; inside an operation list operations are separated
+by `;` and their fields by `:`; vectors are comma-separated rationals, nat lists comma-separated,
+`_` = empty; Booleans `0`/`1`):
+
+* `space <d> <m> <maxDepth> <sops>` — replay design-space operations from `Space.root d m maxDepth`
+  with `Space.runOps`.  Operations:
+  `R:<i>` = `refine_design(i)`; `Q:<i>:<b>` = `if should_refine_design(i) [comparison = b]: refine_design(i)`;
+  `U:<i>:<lo>:<up>` = region of node `i` overwritten.
+  Answer: `ok <points> <cells> <depths> <lowers> <uppers> <answers> <leaves> <leafOnly>` where `cells` has
+  one row `lo0,hi0,lo1,hi1,…` per node, `answers` are the `should_refine_design` results in order, `leaves`
+  the never-refined indices and `leafOnly` = `Space.leafOnly` (every refinement hit a leaf: the hypothesis
+  of theorem `space_ops_invariant`); `none` if some operation is undefined (index out of range).
+* `algo <d> <m> <maxDepth> <ops>` — replay VOGP_AD operations from `Algo.init d m maxDepth` with
+  `Algo.apply`.  Operations: `U:<i>:<lo>:<up>` (modeling of one node), `D:<nats>` (discarding),
+  `C:<nats>` (epsiloncovering, `nats` = not-covered members of S), `E:<c>:<b>` (evaluate_refine with
+  candidate `c`, comparison `b`), `N` (round += 1), and two *set-up* operations used only to build
+  arbitrary (possibly unreachable) states for single-phase comparisons: `R:<i>` (raw `refine_design(i)`
+  leaving S, P alone) and `T:<S>:<P>:<latch>:<algMaxDepth>` (overwrite S, P, latch, max_discretization_depth).
+  Answer: `ok <points> <cells> <depths> <lowers> <uppers> <S> <P> <latch> <algMaxDepth> <samples> <round> <leaves> <dropped>`
+  (S, P, dropped sorted; `dropped` = ghost list of discarded designs), or `none@k` if operation number `k` is undefined in the model (the code would raise).
+* `children <cell>` — `childCells` of one cell given as `lo0,hi0,lo1,hi1,…`; answer: the child cells
+  (matrix, product order).
+-/
 namespace VOPy.Drv.C18
-open VOPy VOPy.Proto
+open VOPy VOPy.Proto VOPy.Adaptive
+
+def parseNat (s : String) : Option Nat := s.toNat?
+
+/-- `lo0,hi0,lo1,hi1,…` → cell -/
+def pairUp : List Rat → Option Cell
+  | [] => some []
+  | a :: b :: r => (pairUp r).map (fun t => (a, b) :: t)
+  | _ => none
+
+def flatCell (c : Cell) : List Rat := c.flatMap (fun p => [p.1, p.2])
+
+inductive DOp where
+  | op (o : Op)
+  | rawRefine (i : Nat)
+  | setup (S P : List Nat) (latch : Bool) (amax : Nat)
+
+def parseDOp (s : String) : Option DOp :=
+  match s.splitOn ":" with
+  | ["U", i, lo, up] => do
+      let i ← parseNat i; let lo ← parseVec lo; let up ← parseVec up
+      pure (.op (.update [(i, lo, up)]))
+  | ["D", l] => (parseNats l).map (fun l => .op (.discard l))
+  | ["C", l] => (parseNats l).map (fun l => .op (.cover l))
+  | ["E", c, b] => do
+      let c ← parseNat c; let b ← parseBool b
+      pure (.op (.evalRefine c b))
+  | ["N"] => some (.op .endRound)
+  | ["R", i] => (parseNat i).map .rawRefine
+  | ["T", s, p, l, k] => do
+      let s ← parseNats s; let p ← parseNats p; let l ← parseBool l; let k ← parseNat k
+      pure (.setup s p l k)
+  | _ => none
+
+def parseSOp (s : String) : Option SOp :=
+  match s.splitOn ":" with
+  | ["R", i] => (parseNat i).map .refine
+  | ["Q", i, b] => do
+      let i ← parseNat i; let b ← parseBool b
+      pure (.guarded i b)
+  | ["U", i, lo, up] => do
+      let i ← parseNat i; let lo ← parseVec lo; let up ← parseVec up
+      pure (.setRegion i lo up)
+  | _ => none
+
+def applyDOp (a : Algo) : DOp → Option Algo
+  | .op o => a.apply o
+  | .rawRefine i => (a.space.refine i).map (fun r => { a with space := r.1 })
+  | .setup S P l k => some { a with S := S, P := P, latch := l, maxDepth := k }
+
+/-- run, reporting the position of the first undefined operation -/
+def runDOps (a : Algo) (k : Nat) : List DOp → Except Nat Algo
+  | [] => .ok a
+  | o :: os =>
+    match applyDOp a o with
+    | none => .error k
+    | some a' => runDOps a' (k + 1) os
+
+def sortNats (l : List Nat) : List Nat := l.mergeSort (fun a b => decide (a ≤ b))
+
+def fmtSpace (s : Space) : String :=
+  " ".intercalate [
+    fmtMat (s.nodes.map (·.point)),
+    fmtMat (s.nodes.map (fun n => flatCell n.cell)),
+    fmtNats (s.nodes.map (·.depth)),
+    fmtMat (s.nodes.map (·.lower)),
+    fmtMat (s.nodes.map (·.upper))]
 
 def handle (args : List String) : String :=
   match args with
+  | ["space", d, m, k, ops] =>
+    match parseNat d, parseNat m, parseNat k, parseList ";" parseSOp ops with
+    | some d, some m, some k, some ops =>
+      match (Space.root d m k).runOps ops with
+      | none => "none"
+      | some (s, ans) =>
+        "ok " ++ fmtSpace s ++ " " ++ fmtBools ans ++ " " ++ fmtNats s.leaves ++ " " ++
+          fmtBool ((Space.root d m k).leafOnly ops)
+    | _, _, _, _ => bad
+  | ["algo", d, m, k, ops] =>
+    match parseNat d, parseNat m, parseNat k, parseList ";" parseDOp ops with
+    | some d, some m, some k, some ops =>
+      match runDOps (Algo.init d m k) 0 ops with
+      | .error j => "none@" ++ toString j
+      | .ok a =>
+        "ok " ++ fmtSpace a.space ++ " " ++ " ".intercalate [
+          fmtNats (sortNats a.S), fmtNats (sortNats a.P), fmtBool a.latch, toString a.maxDepth,
+          toString a.samples, toString a.round, fmtNats a.space.leaves, fmtNats (sortNats a.dropped)]
+    | _, _, _, _ => bad
+  | ["children", c] =>
+    match (parseVec c).bind pairUp with
+    | some c => fmtMat ((childCells c).map flatCell)
+    | none => bad
   | _ => bad
 
 end VOPy.Drv.C18
